@@ -56,6 +56,32 @@ func init() {
 	probes["O53"] = probeO53
 	probes["O54"] = probeO54
 	probes["O55"] = probeO55
+	probes["O75"] = func() (bool, string) {
+		return guard(func() (bool, string) {
+			in := func() map[string]interface{} {
+				return map[string]interface{}{"a": "${b}", "a.x.y": 1, "b": map[string]interface{}{"x": map[string]interface{}{"z": 2}}}
+			}
+			// (the enumeration hook permutes the sorted keys a, a.x.y, b of the top-level map)
+			defer func() { zzsimhook.OnKeys = nil }()
+			var outs []string
+			for _, perm := range [][]int{{0, 1, 2}, {2, 0, 1}, {2, 1, 0}} {
+				perm := perm
+				zzsimhook.OnKeys = func(site string, n int) []int {
+					if n == 3 {
+						return perm
+					}
+					id := make([]int, n)
+					for i := range id {
+						id[i] = i
+					}
+					return id
+				}
+				_, err := ucfg.NewFrom(in(), sepVar...)
+				outs = append(outs, fmt.Sprint(err == nil))
+			}
+			return outs[0] != outs[1] || outs[1] != outs[2], "NewFrom succeeds under the key orders (a, a.x.y, b) / (b, a, a.x.y) / (b, a.x.y, a): " + strings.Join(outs, " / ")
+		})
+	}
 	probes["O74"] = func() (bool, string) {
 		return guard(func() (bool, string) {
 			a, b := underOrders(func() string {
